@@ -534,8 +534,9 @@ THR_SRC = {'ring': THR_ALL, 'mq': THR_ALL, 'fibre': THR_ALL}
 
 
 def thr_stage(name, mode, preset, cc='gcc', tiers=('quick', 'thorough'), nproc=2, cflags=()):
+    quick_args = ['--extra', mode] + (['--cases', '1'] if 'fallback' in name else [])
     return Stage(name, ['harness/threads.c'], THR_SRC[mode], preset=preset, cc=cc, nproc=nproc, tiers=tiers, cflags=cflags,
-                 args={'quick': ['--extra', mode], 'thorough': ['--extra', mode]},
+                 args={'quick': quick_args, 'thorough': ['--extra', mode]},
                  env=TSAN_ENV if preset == 'tsan' else {}, post=tsan_post if preset == 'tsan' else None,
                  timeout={'quick': 600, 'thorough': 3600},
                  needs_min={'ring': {'ring_bytes_handed_over': 100000}, 'mq': {'mq_messages_handed_over': 10000},
